@@ -184,31 +184,47 @@ def run(ctx):
     d = core.spec_tmp(SPEC_DIR)
     quick = ctx.tier == "quick"
     jobs = []
-    # design-level exhaustive check (history hidden by the VIEW)
-    sc = dict(MaxRows=2, MaxLen=2, Depth=3 if quick else 4, Fresh=[7])
-    core.write_cfg(os.path.join(d, "mc.cfg"), constants=consts(sc), invariants=INVS, properties=PROPS, view="HistView")
-    jobs.append(dict(module="RaggedWrite", cfg="mc.cfg", cwd=d, label="exhaustive (VIEW) %s" % sc, workers=6, coverage=True,
-                     timeout=3000))
-    sc3 = dict(MaxRows=3, MaxLen=3, Depth=2, Fresh=[7])
+    # (1) design-level exhaustive check with one history per distinct state (history hidden by the VIEW)
+    sc = dict(MaxRows=2, MaxLen=2, Depth=2 if quick else 3, Fresh=[7])
+    core.write_cfg(os.path.join(d, "mc.cfg"), constants=consts(sc), invariants=INVS + ["EmitInv"], properties=PROPS,
+                   view="HistView")
+    jobs.append(dict(module="RaggedWrite", cfg="mc.cfg", cwd=d, label="exhaustive (VIEW), one history per state %s" % sc,
+                     workers=1, timeout=3000, java_opts=("-Xmx3g",)))
+    sc3 = dict(MaxRows=3, MaxLen=3, Depth=1 if quick else 2, Fresh=[7])
     core.write_cfg(os.path.join(d, "mc3.cfg"), constants=consts(sc3), invariants=INVS, properties=PROPS, view="HistView")
-    jobs.append(dict(module="RaggedWrite", cfg="mc3.cfg", cwd=d, label="exhaustive (VIEW) %s" % sc3, workers=4, timeout=3000))
-    # all single operations (quick) / all pairs (thorough) from every initial shape
-    sce = dict(MaxRows=3, MaxLen=2, Depth=1, Fresh=[7, 9]) if quick else dict(MaxRows=2, MaxLen=2, Depth=2, Fresh=[7])
+    jobs.append(dict(module="RaggedWrite", cfg="mc3.cfg", cwd=d, label="exhaustive (VIEW) %s" % sc3, workers=4, timeout=3000,
+                     coverage=True, java_opts=("-Xmx3g",)))
+    # (2) every single operation from every initial shape
+    sce = dict(MaxRows=3, MaxLen=2, Depth=1, Fresh=[7, 9])
     core.write_cfg(os.path.join(d, "emit.cfg"), constants=consts(sce), invariants=["EmitInv"])
-    jobs.append(dict(module="RaggedWrite", cfg="emit.cfg", cwd=d, label="all histories of length %d %s" % (sce["Depth"], sce),
-                     workers=1, timeout=3000))
-    # simulated walks
+    jobs.append(dict(module="RaggedWrite", cfg="emit.cfg", cwd=d, label="all single operations %s" % sce, workers=1,
+                     timeout=3000, java_opts=("-Xmx3g",)))
+    # (3) simulated walks of length 6 (behaviours written to files by TLC)
     scs = dict(MaxRows=3, MaxLen=3, Depth=6, Fresh=[7, 9])
-    core.write_cfg(os.path.join(d, "sim.cfg"), constants=consts(scs), invariants=["EmitInv"] + INVS)
-    nsim = 2500 if quick else 40000
-    jobs.append(dict(module="RaggedWrite", cfg="sim.cfg", cwd=d, label="simulated walks depth 6 x %d" % nsim, workers=1,
-                     simulate="num=%d" % nsim, seed=ctx.seed + 6, extra=["-depth", "8"], timeout=3000))
+    core.write_cfg(os.path.join(d, "sim.cfg"), constants=consts(scs), invariants=INVS)
+    nsim, nproc = (40, 4) if quick else (200, 8)
+    simdirs = []
+    for i in range(nproc):
+        sd = os.path.join(d, "sim%d" % i)
+        os.makedirs(sd)
+        simdirs.append(sd)
+        jobs.append(dict(module="RaggedWrite", cfg="sim.cfg", cwd=d, label="simulated walks (%d x depth 6) #%d" % (nsim, i),
+                         workers=1, simulate="file=%s/tr,num=%d" % (sd, nsim), seed=ctx.seed * 100 + i + 6,
+                         extra=["-depth", "7"], timeout=3000, java_opts=("-Xmx2g",)))
     res = ctx.tlc_parallel(jobs)
     cases = []
-    for r in res[2:]:
+    for r in (res[0], res[2]):
         cases += [p for t, p in r.prints if t == "CASE"]
-    if len(cases) < 100:
-        raise core.MachineryError("only %d histories generated" % len(cases))
+    nwalk = 0
+    for sd in simdirs:
+        for states in core.parse_sim_traces(sd):
+            last = states[-1]
+            if last.get("hist"):
+                cases.append({"hist": last["hist"], "trail": last["trail"]})
+                nwalk += 1
+    ctx.notes["simulated_walks"] = nwalk
+    if len(cases) < 100 or nwalk == 0:
+        raise core.MachineryError("only %d histories / %d walks generated" % (len(cases), nwalk))
     forms = ["nested", "flat", "lists"]
     args = [(c, forms[i % 3]) for i, c in enumerate(cases)]
     outs = core.pmap(replay_case, args, chunk=100)
